@@ -11,7 +11,7 @@ import (
 )
 
 func init() {
-	register("C14", c14Chunk, func(e *Env) { serveLoop(e, "C14") }, c14SkipErrors, c14Bound, c14Prefetch, c14Drain, c14EOF, c13Window, c13Remainder, c13Accumulate, c14SkipBound, c14Identity, c18Drain)
+	register("C14", c14Chunk, func(e *Env) { serveLoop(e, "C14") }, c14SkipErrors, c14Bound, c14Prefetch, c14Drain, c14EOF, c13Window, c13Remainder, c13Accumulate, c14SkipBound, c14Identity, c18Drain, c09Pools, c14KeepStream)
 }
 
 const pkgUtils = Mod + "/pkg/common/utils"
@@ -70,18 +70,20 @@ func c14Chunk(e *Env) {
 		var sizeVar *types.Var
 		crlfLenVars := map[*types.Var]bool{}
 		// locals holding len(bytestr.StrCRLF)
-		ast.Inspect(fi.Decl.Body, func(n ast.Node) bool {
-			if as, ok := n.(*ast.AssignStmt); ok && len(as.Lhs) == 1 && len(as.Rhs) == 1 {
-				if call, ok := unparen(as.Rhs[0]).(*ast.CallExpr); ok && isBuiltin(info, call, "len") {
-					if s, ok := constBytesExpr(w, info, call.Args[0]); ok && s == "\r\n" {
-						if v := usedVar(info, as.Lhs[0]); v != nil {
-							crlfLenVars[v] = true
+		for _, hf := range withHelpers(w, fi, 2) {
+			ast.Inspect(hf.Decl.Body, func(n ast.Node) bool {
+				if as, ok := n.(*ast.AssignStmt); ok && len(as.Lhs) == 1 && len(as.Rhs) == 1 {
+					if call, ok := unparen(as.Rhs[0]).(*ast.CallExpr); ok && isBuiltin(info, call, "len") {
+						if s, ok := constBytesExpr(w, info, call.Args[0]); ok && s == "\r\n" {
+							if v := usedVar(info, as.Lhs[0]); v != nil {
+								crlfLenVars[v] = true
+							}
 						}
 					}
 				}
-			}
-			return true
-		})
+				return true
+			})
+		}
 		isSkip := func(f *types.Func) bool {
 			return f != nil && f.Name() == "Skip" && f.Pkg() != nil && f.Pkg().Path() == pkgNetwork
 		}
@@ -142,11 +144,11 @@ func c14Chunk(e *Env) {
 				case isSkip(f) && len(call.Args) == 1:
 					a := call.Args[0]
 					switch {
-					case c.S.TS == "L" && sizeVar != nil && usedVar(info, a) == sizeVar:
+					case c.S.TS == "L" && sizeVar != nil && (usedVar(info, a) == sizeVar || rootVar(c, info, a) == sizeVar):
 						c.S.TS = "C"
 					case c.S.TS == "U" && isField(a):
 						c.S.TS = "C"
-					case c.S.TS == "C" && (crlfLenVars[usedVar(info, a)] || isConstInt(info, a, 2)):
+					case c.S.TS == "C" && (crlfLenVars[usedVar(info, a)] || crlfLenVars[rootVar(c, info, a)] || isConstInt(info, a, 2)):
 						c.S.TS = "B"
 					}
 				case esp.Is(f, pkgUtils, "", "SkipCRLF"):
@@ -324,4 +326,15 @@ func c14Prefetch(e *Env) {
 		})
 	}
 	r.Floor(rule, n, 3, "calls on bodyStream.prefetchedBytes")
+}
+
+// rootVar resolves an identifier used inside an inlined helper to the caller's variable that
+// was passed for it (parameter binding of the typestate engine).
+func rootVar(c *esp.Ctx, info *types.Info, e ast.Expr) *types.Var {
+	v := usedVar(info, e)
+	if v == nil {
+		return nil
+	}
+	r, _ := c.Root(v).(*types.Var)
+	return r
 }
